@@ -288,7 +288,7 @@ def load_known_findings():
 
 # ---------------------------------------------------------------- main
 
-def run_one_harness(prop, h, tier, seed, outdir, replay=None):
+def run_one_harness(prop, h, tier, seed, outdir, replay=None, max_timeout=None):
     rc, o, binpath = build_harness(h["cmd"])
     if rc != 0:
         return None, "harness build failed:\n" + o[-3000:]
@@ -299,8 +299,11 @@ def run_one_harness(prop, h, tier, seed, outdir, replay=None):
     if replay:
         cmd += ["-replay", replay]
     env = dict(GOENV, VERIF_REPO=REPO, VERIF_DIR=VERIF)
+    tmo = h.get("timeout_s", 900 if tier == "quick" else 6000)
+    if max_timeout:
+        tmo = min(tmo, max_timeout)
     try:
-        rc, o = sh(cmd, cwd=GOH, env=env, timeout=h.get("timeout_s", 900 if tier == "quick" else 6000))
+        rc, o = sh(cmd, cwd=GOH, env=env, timeout=tmo)
     except subprocess.TimeoutExpired:
         return None, "harness run timed out"
     if rc != 0:
@@ -319,7 +322,7 @@ def harness_list(prop):
     return hs
 
 
-def run_harness(prop, tier, seed, outdir, replay=None):
+def run_harness(prop, tier, seed, outdir, replay=None, max_timeout=None):
     """Run every harness registered for the property and merge their outputs
     (case shards, cases.jsonl, meta) into outdir. A replay file names the
     harness its case came from."""
@@ -331,7 +334,7 @@ def run_harness(prop, tier, seed, outdir, replay=None):
             k = 0
         hs = [hs[k if k < len(hs) else 0]]
     if len(hs) == 1:
-        meta, err = run_one_harness(prop, hs[0], tier, seed, outdir, replay)
+        meta, err = run_one_harness(prop, hs[0], tier, seed, outdir, replay, max_timeout)
         return meta, err
     shutil.rmtree(outdir, ignore_errors=True)
     os.makedirs(outdir)
@@ -342,7 +345,7 @@ def run_harness(prop, tier, seed, outdir, replay=None):
     with open(os.path.join(outdir, "cases.jsonl"), "w") as jl:
         for k, h in enumerate(hs):
             sub = os.path.join(outdir, "h%d" % k)
-            meta, err = run_one_harness(prop, h, tier, seed, sub, None)
+            meta, err = run_one_harness(prop, h, tier, seed, sub, None, max_timeout)
             if err:
                 return None, "harness %s: %s" % (h["cmd"], err)
             offs = meta.get("shard_offsets", [])
@@ -631,7 +634,7 @@ def main(argv):
         found = None
         if harness_list(prop) and not replay and tier == "quick" and not herr:
             sdir = rundir + "-search"
-            smeta, serr = run_harness(prop, "thorough", seed + 1000003, sdir)
+            smeta, serr = run_harness(prop, "thorough", seed + 1000003, sdir, max_timeout=1200)
             if not serr:
                 sf, se = eval_shards(sdir)
                 soff = smeta.get("shard_offsets", [])
